@@ -53,8 +53,10 @@ calls, batch sessions, `Merge`s and restarts.  This file composes the two.
   `now + ttl < 2^63`).
 * `EOpOK V` — a command's arguments are at most `V` bytes together (`V ≤ 2^25`, so that every record the layer
   writes — internal key `key ‖ 8 bytes ‖ field/member/score/length`, value, metadata ≤ 46 bytes — is within the
-  engine's `AOpOK` bound `2^27`); batch ids positive and below `2^63` (NOT assumed distinct); restart
-  configurations valid; a `Merge` visits each file once.
+  engine's `AOpOK` bound `2^27`; the invariant carries "every stored value is at most `V + 64` bytes", because
+  `ZAdd` deletes a key that contains a stored value, the old score); batch ids positive and below `2^63` (NOT
+  assumed distinct); restart configurations valid; a `Merge` visits each file once.  (The clock conditions the
+  engine side needs — `now < 2^63`, `now + ttl < 2^63` — are among the hypotheses of `C19_refines`.)
 * `ERunOK` (dynamic) or `8 * h.length + 1 < 2^32 ∧ totalECost V h < 2^32` (static).
 -/
 namespace XixiKV.C19E
@@ -97,7 +99,7 @@ def HoldsE : List Expect → List Out → Prop
 
 /-- engine-side conditions on a call -/
 def EOpOK (V : Nat) : EOp → Prop
-  | .cmd c now bid => ECmdOK V c now ∧ 0 < bid ∧ bid < 2 ^ 63
+  | .cmd c _ bid => argSize c ≤ V ∧ 0 < bid ∧ bid < 2 ^ 63
   | .restart cfg => cfg.Valid
   | .merge order => order.Nodup
 
@@ -138,6 +140,22 @@ def SpecOK (U M : List ByteArray) (t : Nat) (sp : State) : EOp → Prop
   | .cmd c now _ => CmdOK U M c ∧ t ≤ now ∧ now < 2 ^ 62 ∧ StepOK sp c now = true
   | _ => True
 
+/-- the clock conditions of `ECmdOK` are among the hypotheses of `C19_refines` -/
+theorem stepOK_ttl {sp : State} {c : Cmd} {now : Nat} (h : StepOK sp c now = true) : TtlOK c now := by
+  unfold StepOK at h
+  unfold TtlOK
+  rw [Bool.and_eq_true] at h
+  cases c with
+  | set k v ttl =>
+    cases v with
+    | none => trivial
+    | some v => exact of_decide_eq_true h.2
+  | _ => trivial
+
+theorem ECmdOK_of {V : Nat} {U M : List ByteArray} {t : Nat} {sp : State} {c : Cmd} {now bid : Nat}
+    (hop : EOpOK V (.cmd c now bid)) (hsp : SpecOK U M t sp (.cmd c now bid)) : ECmdOK V c now :=
+  ⟨hop.1, by have := hsp.2.2.1; omega, stepOK_ttl hsp.2.2.2⟩
+
 theorem HoldsE_append : ∀ {es es' : List Expect} {os os' : List Out}, HoldsE es os → HoldsE es' os' →
     HoldsE (es ++ es') (os ++ os') := by
   intro es
@@ -176,7 +194,8 @@ theorem estep_ok (hU : PrefixFree U) (hM : ZNoClash M) (hV : V ≤ 2 ^ 25) {t : 
   obtain ⟨kv, hrel, hR⟩ := hi
   cases op with
   | cmd c now bid =>
-    obtain ⟨hc, h0, hlt⟩ := hop
+    have hc := ECmdOK_of hop hsp
+    obtain ⟨_, h0, hlt⟩ := hop
     obtain ⟨hcmd, ht, hnow, hstep⟩ := hsp
     obtain ⟨e1, r1, _⟩ := sim_cmd hV hrel c now h0 hlt hc
     obtain ⟨e2, r2⟩ := C19.C19_refines_step hU hM hR c now hcmd ht hnow hstep
@@ -222,12 +241,13 @@ theorem erun_ok (hU : PrefixFree U) (hM : ZNoClash M) (hV : V ≤ 2 ^ 25) : ∀ 
 
 /-- the size bound after one call: at most eight more file ids, at most `ecostOp V op` more weight -/
 theorem ebnd_step (hV : V ≤ 2 ^ 25) {t : Nat} {s : St} {sp : State} {A W : Nat} (hi : EInv dir V U M t s sp)
-    (hb : Bnd s A W) (op : EOp) (hop : EOpOK V op) (hA : A + 1 < 2 ^ 32) (hW : W < 2 ^ 32) :
+    (hb : Bnd s A W) (op : EOp) (hop : EOpOK V op) (hsp : SpecOK U M t sp op) (hA : A + 1 < 2 ^ 32) (hW : W < 2 ^ 32) :
     EStepOK dir s op ∧ Bnd (estep dir s op).1 (A + 8) (W + ecostOp V op) := by
   obtain ⟨kv, hrel, _⟩ := hi
   cases op with
   | cmd c now bid =>
-    obtain ⟨hc, h0, hlt⟩ := hop
+    have hc := ECmdOK_of hop hsp
+    obtain ⟨_, h0, hlt⟩ := hop
     obtain ⟨_, _, b1⟩ := sim_cmd hV hrel c now h0 hlt hc
     exact ⟨trivial, b1 A W hb⟩
   | restart cfg =>
@@ -252,7 +272,7 @@ theorem ERunOK_of_small (hU : PrefixFree U) (hM : ZNoClash M) (hV : V ≤ 2 ^ 25
     rw [hcost] at hW
     obtain ⟨hsp, hrest⟩ := histOK_cons hok
     have hop := heok op (by simp)
-    obtain ⟨h1, h2⟩ := ebnd_step hV hi hb op hop (by omega) (by omega)
+    obtain ⟨h1, h2⟩ := ebnd_step hV hi hb op hop hsp (by omega) (by omega)
     obtain ⟨_, hi'⟩ := estep_ok hU hM hV hi op hop hsp h1
     exact ⟨h1, ih hi' h2 hrest (fun o ho => heok o (by simp [ho])) (by omega) (by omega)⟩
 
@@ -497,9 +517,15 @@ theorem demo_refines_engine :
       (Spec.stepAll (cmdsOf demoE) State.empty).1 :=
   C19_refines_engine_small demoU_ok demoM_ok "d" cfgA (by decide) 64 (by decide) demoE demo_hist demo_eok demo_len demo_cost
 
-/-- the gap `merge; hdel; restart` is not a gap (it contains a command); `restart cfgC` and
-    `merge []; restart cfgA` are -/
-example : isGap [.merge [], .restart cfgA] = true := rfl
+/-- `C19_restart_engine` on the concrete history: the replies after the gap `Merge; restart cfgA` (calls 26, 27)
+    are those of the specification continuing from the abstract state after the first 26 calls -/
+example :
+    repliesOf (erun "d" (erun "d" (openDB St.init "d" cfgA).1 (demoE.take 26 ++ [.merge [], .restart cfgA])).1
+        (demoE.drop 28)).2
+      = (Spec.stepAll (cmdsOf (demoE.drop 28)) (Spec.stepAll (cmdsOf (demoE.take 26)) State.empty).1).2 :=
+  have e : demoE.take 26 ++ [.merge [], .restart cfgA] ++ demoE.drop 28 = demoE := rfl
+  C19_restart_engine demoU_ok demoM_ok "d" cfgA (by decide) 64 (by decide) (demoE.take 26) [.merge [], .restart cfgA]
+    (demoE.drop 28) rfl (by rw [e]; exact demo_hist) (by rw [e]; exact demo_eok) (by rw [e]; exact demo_refines_engine.1)
 
 /-! ### evaluated (compiled evaluation by `#guard`; not used by any proof) -/
 
